@@ -1,6 +1,7 @@
 """C12 — rewards and termination mean what they say, and agree with each other.
 See DESIGN.md §2 C12."""
 from .. import boot  # noqa: F401
+import functools
 import math
 
 import numpy as np
@@ -10,7 +11,7 @@ from gym_gridverse.envs import gridworld as gridworld_mod
 from gym_gridverse.envs import reward_functions as reward_fs
 from gym_gridverse.envs import terminating_functions as terminating_fs
 from gym_gridverse.geometry import Position
-from gym_gridverse.grid_object import Beacon, Exit, Floor, MovingObstacle, Wall, grid_object_registry
+from gym_gridverse.grid_object import Beacon, Door, Exit, Floor, Key, MovingObstacle, Wall, grid_object_registry
 
 from .. import compose, dyndrive, enc, gen, refmodel, workloads
 from ..monitor import Patch, call_real, describe_exc, exc_site, reach
@@ -34,7 +35,7 @@ RULE = ('case = (component or composite with parameters, state, action, next sta
         '(returns something else than its neutral value / True); distinct by (component spec, deep encodings of both states, '
         'action). Categories count each component x {fires, silent} x {real, arbitrary} triple.')
 ASSUMPTIONS = ['reference semantics taken from the docstrings; tolerance 1e-9 relative on sums']
-REQUIRED = {'quick': {'component.evals': 20000, 'composite.evals': 2000, 'gridworld.spied_steps': 3000,
+REQUIRED = {'quick': {'composite.failing_part': 200, 'component.evals': 20000, 'composite.evals': 2000, 'gridworld.spied_steps': 3000,
                       'exit_agreement.steps': 1500, 'exit_agreement.fired': 5, 'shipped.total_reward_checked': 1500, 'far_distance.evals': 100,
                       **{f'fires.reward.{n}': 8 for n in ['reach_exit', 'overlap', 'bump_moving_obstacle', 'bump_into_wall',
                                                           'proportional_to_distance', 'getting_closer',
@@ -495,6 +496,71 @@ def anchored():
     return fs + [gridworld_mod.GridWorld.functional_step]
 
 
+class PartFailure(Exception):
+    pass
+
+
+def _attempt(fn, *args, **kwargs):
+    """(returned normally?, value or exception); the failing parts are harness code, so call_real's harness-error rule does
+    not apply here"""
+    try:
+        return True, fn(*args, **kwargs)
+    except Exception as e:  # noqa
+        return False, e
+
+
+def failing_parts(ctx, n):
+    """a composite whose part raises on the triple cannot have "the sum of its parts" as value: reduce_sum has to raise too
+    (whatever the exception class - StopIteration included, which iterator plumbing tends to swallow), reduce_any /
+    reduce_all have to raise unless an earlier part already decided the result"""
+    from gym_gridverse.envs import reward_functions as rf, terminating_functions as tf
+    excs = [StopIteration, ValueError, KeyError, PartFailure, RuntimeError, IndexError]
+    for k in range(n):
+        rng = gen.rng_for('C12failing', ctx.seed, ctx.shard, k)
+        state, _ = gen.rand_state(rng, [Floor, Wall, Exit, Key, Door], gen.COLORS, hmax=5, wmax=5)  # no Beacon anywhere
+        ns = enc.state_from_json(enc.state_to_json(state))
+        a = rng.choice(list(Action))
+        exc = excs[k % len(excs)]
+        builtin = k % 3 == 0  # the library's own reach_exit_memory outside its precondition (no beacon in the next state)
+
+        def failing(state, action, next_state, *, rng=None, exc=exc):
+            raise exc('part cannot be evaluated')
+        # rewards
+        vals = [rng.choice([-1.0, 0.5, 2.0]) for _ in range(rng.randint(1, 3))]
+        normal = [functools.partial(rf.living_reward, reward=v) for v in vals]
+        bad = rf.factory('reach_exit_memory', reward_good=1.0, reward_bad=-1.0) if builtin else failing
+        okb, _ = _attempt(bad, state, a, ns)
+        if okb:
+            continue
+        pos = rng.randrange(len(normal) + 1)
+        parts = normal[:pos] + [bad] + normal[pos:]
+        ok, v = _attempt(rf.reduce_sum, state, a, ns, reward_functions=parts)
+        ctx.ev()
+        ctx.hit('composite.failing_part')
+        if ok:
+            ctx.violation('composite', 'composite.reduce_sum.swallows_failing_part',
+                          f'reduce_sum returned {v!r} although part #{pos} of {len(parts)} '
+                          f'({"reach_exit_memory without beacon" if builtin else "user part raising " + exc.__name__}) raised: '
+                          f'the value is not the sum of its parts', 'failing_case', {'k': [ctx.seed, ctx.shard, k]})
+        # terminating
+        flags = [rng.random() < 0.5 for _ in range(rng.randint(1, 3))]
+        tnormal = [(lambda s, a_, n_, *, rng=None, f=f: f) for f in flags]
+        tbad = failing
+        pos = rng.randrange(len(tnormal) + 1)
+        tparts = tnormal[:pos] + [tbad] + tnormal[pos:]
+        for name, red, decided in (('reduce_any', tf.reduce_any, any(flags[:pos])), ('reduce_all', tf.reduce_all, not all(flags[:pos]))):
+            ok, v = _attempt(red, state, a, ns, terminating_functions=tparts)
+            ctx.ev()
+            ctx.hit('composite.failing_part')
+            if ok and not decided:
+                ctx.violation('composite', f'composite.{name}.swallows_failing_part',
+                              f'{name} returned {v!r} although part #{pos} of {len(tparts)} raised {exc.__name__} and the earlier '
+                              f'parts {flags[:pos]} do not decide the result', 'failing_case', {'k': [ctx.seed, ctx.shard, k]})
+            elif ok and v is not (name == 'reduce_any'):
+                ctx.violation('composite', f'composite.{name}', f'{name} returned {v!r} with earlier parts {flags[:pos]}',
+                              'failing_case', {'k': [ctx.seed, ctx.shard, k]})
+
+
 def run(ctx):
     from .. import custom_objects
     custom_objects.enable(cleats=True, subclasses=True)  # user-defined types, incl. subclasses of Exit / MovingObstacle / Door
@@ -503,6 +569,7 @@ def run(ctx):
         install_exit_recorders(ctx, patch, log)
         drive_compositions(ctx, ctx.pick(240, 12000), log)
         far_distance_checks(ctx, ctx.pick(10, 150))
+        failing_parts(ctx, ctx.pick(120, 2000))
         drive_shipped(ctx, log, ctx.pick(1, 20), ctx.pick(120, 500))
 
 
@@ -510,6 +577,10 @@ def replay(ctx, kind, payload):
     from .. import custom_objects
     custom_objects.enable(cleats=True, subclasses=True)
     types = type_map()
+    if kind == 'failing_case':
+        ctx.seed, ctx.shard = payload['k'][0], payload['k'][1]
+        failing_parts(ctx, payload['k'][2] + 1)
+        return
     if kind == 'far_case':
         ctx.seed, ctx.shard = payload['k'][0], payload['k'][1]
         far_distance_checks(ctx, payload['k'][2] + 1)
